@@ -71,7 +71,9 @@ def rule_R1(ctx):
         for c in T.calls_in(recv):
             if c[1].endswith("::index") and len(c[2]) == 2:
                 i = T.strip(c[2][1])
-                if i[0] == "call" and i[1].endswith("::unwrap_or") and T.has_call(i, "checked_rem") and T.has_call(i, "hash_source_ip"):
+                ri = Q.reduced_index(i)
+                if ri is not None and T.has_call(ri[0], "hash_source_ip") and (ri[2] is None or T.fold_int(ri[2]) == 0) and \
+                        any(x[0] == "field" and x[2] == "num_workers" for x in T.walk(ri[1])):
                     okk = True
             if c[1].endswith("::get") and len(c[2]) == 2:
                 okk = True
